@@ -31,7 +31,7 @@ ASSUMPTIONS = ["laziness and non-mutation are observations of this run, not theo
 
 
 # counters that every complete run must have incremented (harness self-check, see core.run_check)
-EXPECT_COUNTS = ['rep:as-generated', 'rep:transpose', 'rep:shuffle-coords', 'rep:dask', 'rep:dataset', 'rep:dataset-second-variable', 'rep:pandas', 'rep:pandas-angular', 'rep:manager-multistep', 'model_tie']
+EXPECT_COUNTS = ['rep:as-generated', 'rep:transpose', 'rep:shuffle-coords', 'rep:dask', 'rep:dtype', 'rep:dataset', 'rep:dataset-second-variable', 'rep:pandas', 'rep:pandas-angular', 'rep:manager-multistep', 'model_tie']
 
 def S():
     import scores
@@ -138,7 +138,7 @@ def run(ctx):
             if not unchanged(xs, snap):
                 ctx.violation(f"{rc.name}: the call modified its inputs (values, coordinates or attrs)", desc, "inputs unchanged", "inputs changed")
 
-            def check(rep, ys, post=None, lazy_expected=None):
+            def check(rep, ys, post=None, lazy_expected=None, tol=1e-9):
                 nonlocal programs
                 snap2 = snapshot(ys) if lazy_expected is None else None
                 r = core.call_impl(rc.call, ys, **kw)
@@ -146,7 +146,7 @@ def run(ctx):
                 if r[0] == "ok" and lazy_expected is not None:
                     lazy = is_lazy(r[1])
                     r = ("ok", post(r[1]))
-                ok, why = scorelib.same_result(base, r, tol=1e-9)
+                ok, why = scorelib.same_result(base, r, tol=tol)
                 ctx.case((rc.name, rep, desc))
                 ctx.count("rep:" + rep.split(":")[0])
                 programs += 1
@@ -178,6 +178,17 @@ def run(ctx):
                     for sched in ("synchronous", "threads"):
                         ys = [rep_dask(rng, x, mode) for x in xs]
                         check(f"dask:{mode}:{sched}", ys, post=lambda r, s=sched: compute(r, s), lazy_expected=rc.lazy)
+            # storage dtype: the same integer values held as int64 / int32 / float32 instead of float64 (NaN-free
+            # integer-valued inputs only; unsigned and bool storage are outside the quantifier: numpy itself wraps there)
+            if rc.dtypes:
+                xi = [x.copy(data=np.rint(np.nan_to_num(x.values, nan=0.0, posinf=3.0, neginf=-3.0))) for x in xs]
+                kw_saved, base_saved = kw, base
+                base = core.call_impl(rc.call, xi, **kw)
+                if base[0] == "ok":
+                    for dt in ("int64", "int32", "float32"):
+                        which = [i for i in range(len(xi)) if rng.random() < 0.7] or [0]
+                        check(f"dtype:{dt}", [x.astype(dt) if i in which else x for i, x in enumerate(xi)], tol=1e-9 if dt != "float32" else 2e-6)
+                kw, base = kw_saved, base_saved
             # Dataset variables
             if rc.dataset is not None and xarraylike_params(rc.dataset):
                 # second variable: the same fields read backwards (other values, other NaN slots, same domain and labels),
